@@ -15,6 +15,7 @@ pub mod c10;
 pub mod c11;
 pub mod c12;
 pub mod c13;
+pub mod c14;
 pub mod c15;
 pub mod flow;
 pub mod sched;
@@ -48,6 +49,7 @@ pub fn all() -> Vec<Prop> {
         Prop { id: "C11", level: "exploration", case: c11::case, run: c11::run, replay_reps: 16 },
         Prop { id: "C12", level: "exploration", case: c12::case, run: c12::run, replay_reps: 16 },
         Prop { id: "C13", level: "exploration", case: c13::case, run: c13::run, replay_reps: 16 },
+        Prop { id: "C14", level: "fault_enumeration", case: c14::case, run: c14::run, replay_reps: 3 },
         Prop { id: "C15", level: "exploration", case: c15::case, run: c15::run, replay_reps: 1 },
         Prop { id: "C16", level: "exploration", case: c16::case, run: c16::run, replay_reps: 1 },
         Prop { id: "C18", level: "fault_enumeration", case: c18::case, run: c18::run, replay_reps: 3 },
